@@ -173,12 +173,18 @@ Proof.
   rewrite IH. reflexivity.
 Qed.
 
-Lemma filterdir_files self p x :
-  map fi_name (fs_filterdir self p (fsreg_files self) x) = fs_files (glob_matches (fsr_exts self)) (fs_listing self).
+Lemma ends_with_empty s : ends_with "" s = true.
+Proof. induction s as [|c r IH]; cbn [ends_with]; [reflexivity|]. rewrite IH. apply Bool.orb_true_r. Qed.
+
+(* with exclude_dirs=["*"] every directory is left out, whatever its name *)
+Lemma filterdir_files self p :
+  map fi_name (fs_filterdir self p (fsreg_files self) ["*"%string]) = fs_files (glob_matches (fsr_exts self)) (fs_listing self).
 Proof.
   unfold fs_filterdir, fs_files, fs_listing. rewrite map_map. cbn [fi_name].
   induction (fsr_listing self) as [|[[n b] r] l IH]; cbn [filter map fst snd]; [reflexivity|].
-  rewrite files_glob. destruct (b && glob_matches (fsr_exts self) n); cbn [map fst]; now rewrite IH.
+  destruct b; cbn [andb].
+  - rewrite files_glob. destruct (glob_matches (fsr_exts self) n); cbn [map fst]; now rewrite IH.
+  - cbn [existsb glob1 lower]. rewrite ends_with_empty. cbn [orb negb]. exact IH.
 Qed.
 
 (* the _files property as regenerated: "*." + extension for every extension, in order *)
@@ -190,14 +196,14 @@ Qed.
 Theorem FilesystemRegistry_iter_eq self :
   FilesystemRegistry_iter self = Ok (fs_iter splitext_stem (glob_matches (fsr_exts self)) (fs_listing self)).
 Proof.
-  unfold FilesystemRegistry_iter, fs_iter. rewrite FilesystemRegistry_files_eq. cbn [bind]. rewrite <- (filterdir_files self "/" ["*"%string]).
+  unfold FilesystemRegistry_iter, fs_iter. rewrite FilesystemRegistry_files_eq. cbn [bind]. rewrite <- (filterdir_files self "/").
   rewrite (py_for0_map (fun f => splitext_stem (fi_name f))) by reflexivity. cbn [app bind]. now rewrite map_map.
 Qed.
 
 Theorem FilesystemRegistry_len_eq self :
   FilesystemRegistry_len self = Ok (Z.of_nat (fs_len (glob_matches (fsr_exts self)) (fs_listing self))).
 Proof.
-  unfold FilesystemRegistry_len, fs_len. rewrite FilesystemRegistry_files_eq. cbn [bind]. rewrite <- (filterdir_files self "/" ["*"%string]).
+  unfold FilesystemRegistry_len, fs_len. rewrite FilesystemRegistry_files_eq. cbn [bind]. rewrite <- (filterdir_files self "/").
   now rewrite map_length.
 Qed.
 
@@ -214,7 +220,7 @@ Theorem FilesystemRegistry_getitem_eq self k :
   | None => Err (XKeyError (KeyStr k))
   end.
 Proof.
-  unfold FilesystemRegistry_getitem, fs_lookup. rewrite FilesystemRegistry_files_eq. cbn [bind]. rewrite <- (filterdir_files self "/" ["*"%string]).
+  unfold FilesystemRegistry_getitem, fs_lookup. rewrite FilesystemRegistry_files_eq. cbn [bind]. rewrite <- (filterdir_files self "/").
   induction (fs_filterdir self "/" (fsreg_files self) ["*"%string]) as [|f l IH]; cbn [py_for map find bind]; [reflexivity|].
   unfold py_splitext at 1. cbn [fst snd]. unfold py_eq, PyEq_string.
   destruct (String.eqb (splitext_stem (fi_name f)) k) eqn:E.
